@@ -138,10 +138,9 @@ def _codes_of_module(mod):
     return out
 
 
-CORE_MODULES = ["pyab_experiment.experiment_evaluator", "pyab_experiment.utils.wraper_functions"]
+CORE_MODULES = ["pyab_experiment.experiment_evaluator", "pyab_experiment.utils.wraper_functions", "pyab_experiment.binning.binning"]
 DEEP_MODULES = CORE_MODULES + ["pyab_experiment.sly.lex", "pyab_experiment.sly.yacc", "pyab_experiment.language.lexer",
-                               "pyab_experiment.language.grammar", "pyab_experiment.codegen.python.python_generator",
-                               "pyab_experiment.binning.binning"]  # fmt: skip
+                               "pyab_experiment.language.grammar", "pyab_experiment.codegen.python.python_generator"]  # fmt: skip
 
 
 class Instrument:
@@ -306,7 +305,23 @@ def preemptions(points, upto=None):
     return sum(1 for (_t, _l, _n, c, is_exit, _g) in pts if c != 0 and not is_exit)
 
 
-def explore(make_bodies, check, bound, prefix=(), stats=None, cap=None, root_only=False):
+def exec_schedule(make_bodies, check, prefix, isolate=False):
+    """run one schedule and check it -> (points, fault, violation|None).  With isolate=True the
+    schedule runs in a forked child of this process (which must not have executed library code),
+    so that state the library keeps at module level cannot leak from one execution to the next."""
+    def one():
+        ex, ctx = run_schedule(make_bodies, prefix)
+        v = None if ex.fault else check(ex, ctx)
+        return [tuple(p) for p in ex.points], ex.fault, v
+
+    if isolate:
+        from .xlife import in_child
+
+        return in_child(one)
+    return one()
+
+
+def explore(make_bodies, check, bound, prefix=(), stats=None, cap=None, isolate=False):
     """DFS from `prefix`.  check(ex, ctx) -> None | violation dict.  Returns list of violations.
     stats: dict updated with schedules / points / preemption histogram."""
     stats = stats if stats is not None else {}
@@ -317,30 +332,26 @@ def explore(make_bodies, check, bound, prefix=(), stats=None, cap=None, root_onl
         if cap is not None and stats.get("schedules", 0) >= cap:
             stats["cap_hit"] = True
             break
-        ex, ctx = run_schedule(make_bodies, pre)
-        if ex.fault:
-            raise HarnessFault(f"schedule {pre}: {ex.fault}")
+        points, fault, v = exec_schedule(make_bodies, check, pre, isolate)
+        if fault:
+            raise HarnessFault(f"schedule {pre}: {fault}")
         stats["schedules"] = stats.get("schedules", 0) + 1
-        stats["points"] = stats.get("points", 0) + len(ex.points)
-        npre = preemptions(ex.points)
+        stats["points"] = stats.get("points", 0) + len(points)
+        npre = preemptions(points)
         stats[f"preemptions_{npre}"] = stats.get(f"preemptions_{npre}", 0) + 1
-        stats["max_points"] = max(stats.get("max_points", 0), len(ex.points))
         if "owner_seqs" in stats:
-            stats["owner_seqs"].append(tuple(p[5] for p in ex.points))
-        v = check(ex, ctx)
+            stats["owner_seqs"].append(tuple(p[5] for p in points))
         if v is not None:
             v = dict(v)
-            v["schedule"] = [p[3] for p in ex.points]
+            v["schedule"] = [p[3] for p in points]
             v["preemptions"] = npre
             viols.append(v)
             if len(viols) >= 5:
                 break
-        if root_only:
-            return viols, ex
-        choices = [p[3] for p in ex.points]
-        for i in range(len(pre), len(ex.points)):
-            _tid, _loc, n_en, _c, is_exit, _g = ex.points[i]
-            cost = preemptions(ex.points, i) + (0 if is_exit else 1)
+        choices = [p[3] for p in points]
+        for i in range(len(pre), len(points)):
+            _tid, _loc, n_en, _c, is_exit, _g = points[i]
+            cost = preemptions(points, i) + (0 if is_exit else 1)
             if cost > bound:
                 continue
             for alt in range(1, n_en):
